@@ -74,6 +74,13 @@ def handleMPE (total rng sample prev hold short : String) : String :=
   | .error e => showFail e
   | .ok (p, s) => s!"ok {showPat g.total p} {showRng s} 0"
 
+/-- `MPN <start> <span> <distbits> <beatlenbits> <smbits>` — the slider arithmetic of
+`PathObjectPatternGenerator::new`; response `<end_time> <segment_duration>` -/
+def handleMPN (start span dist beatLen sm : String) : String :=
+  match pathNew floatArith (int start) (int span) (cdOf dist) (cdOf beatLen) (cdOf sm) with
+  | .error e => showFail e
+  | .ok (e, seg) => s!"{e} {seg}"
+
 def parseObj (s : String) : Option (ObjIn Float) :=
   match s.splitOn "," with
   | ["c", x, sample, ct] => some (.circle (int x) (nat sample) (nat ct))
